@@ -647,6 +647,9 @@ func engineDecode(cfg config, o *out) {
 					c.malformed(mi, m, "flip")
 				}
 				// adversarial length in front of the tail
+				if !cfg.thorough() && len(encs) > 8 && cc.r.intn(3) != 0 {
+					continue // quick: the adversarial-length sweep on every third encoding
+				}
 				pos := cc.r.intn(len(enc))
 				lens := []uint64{1 << 31, 1<<63 - 1, 1 << 63, 1<<64 - 1, uint64(len(enc)), uint64(len(enc) - pos + 1)}
 				for n := 1; n <= 16; n++ { // negative lengths that move the index back by at most what the record consumed
